@@ -88,7 +88,7 @@ theorem C24_convert_sound_rest (anno : Nat → SI) (env : Nat → Nat)
     (e : BV) (R : usesRestBV e = true → OpsRest) (hdef : DefBV env e)
     (o o' : Orders) (av : AV) (hwt : WTBV anno env e) (h : convBV anno e o = .ok (av, o'))
     (v : Nat) (hv : evalBV env e = some v) : av.si.WF ∧ av.si.bits = wd e ∧ av.si.mem v :=
-  let g := convBV_good' anno env hctx e o av o' R hdef hwt h
+  let g := convBV_rest_good anno env hctx e o av o' R hdef hwt h
   ⟨g.1.1, g.1.2, (g.2 v hv).1⟩
 
 /-- **unconditional** for ASTs built from the proved operations: variables with annotations, constants, `+ - neg ~`,
@@ -106,14 +106,14 @@ theorem C24_fragment_bool_sound (anno : Nat → SI) (env : Nat → Nat)
     (c : BExp) (hfrag : usesRestB c = false) (hdef : DefB env c)
     (o o' : Orders) (br : BoolRes) (hwt : WTB anno env c) (h : convB anno c o = .ok (br, o'))
     (b : Bool) (hb : evalB env c = some b) : br.has b = true :=
-  convB_good' anno env hctx c o br o' (fun hh => by rw [hfrag] at hh; cases hh) hdef hwt h b hb
+  convB_rest_good anno env hctx c o br o' (fun hh => by rw [hfrag] at hh; cases hh) hdef hwt h b hb
 
 theorem C24_bool_sound_rest (anno : Nat → SI) (env : Nat → Nat)
     (hctx : ∀ i, (anno i).WF ∧ (anno i).mem (env i))
     (c : BExp) (R : usesRestB c = true → OpsRest) (hdef : DefB env c)
     (o o' : Orders) (br : BoolRes) (hwt : WTB anno env c) (h : convB anno c o = .ok (br, o'))
     (b : Bool) (hb : evalB env c = some b) : br.has b = true :=
-  convB_good' anno env hctx c o br o' R hdef hwt h b hb
+  convB_rest_good anno env hctx c o br o' R hdef hwt h b hb
 
 /-- non-vacuity and a bounded sanity fact: `If(x <u 4, x + 1, 0)` with `x ∈ 1[2,6]` at 3 bits -/
 def demoExpr : BV := .ite (.cmp .ult (.var 0 3) (.const 4 3)) (.bin .add (.var 0 3) (.const 1 3)) (.const 0 3)
@@ -131,6 +131,6 @@ example : WTBV demoAnno (fun _ => 3) demoExpr := by
 example : usesRestBV demoExpr = false ∧ DefBV (fun _ => 3) demoExpr := by
   refine ⟨by decide, ?_⟩
   simp only [demoExpr, DefBV, DefB, true_and, and_true]
-  exact ⟨_, by decide⟩
+  exact ⟨4, by decide⟩
 
 end Claripy.Props.C24
